@@ -1,0 +1,14 @@
+//go:build verif
+
+package impl
+
+import (
+	datatransfer "github.com/filecoin-project/go-data-transfer/v2"
+)
+
+// VerifNextTransferID draws the next transfer ID from the manager's generator.
+// It exists only in builds with the "verif" tag and is used by the external
+// verification harness to exercise the generator under contention.
+func VerifNextTransferID(m datatransfer.Manager) uint64 {
+	return m.(*manager).transferIDGen.next()
+}
